@@ -239,7 +239,7 @@ impl IterPath {
     }
 }
 
-path_enum!(DestroyIterVariant { Typed, Any, Wild, Mut });
+path_enum!(DestroyIterVariant { Typed, Any, Wild, Mut, ViaStep });
 
 /// Decision returned by an `ecs_iter_destroy!` closure.
 #[derive(Clone, Copy, Debug, PartialEq, Eq, PartialOrd, Ord, Hash)]
@@ -265,6 +265,18 @@ impl Step {
     pub fn is_break(&self) -> bool {
         matches!(self, Step::Break | Step::BreakDestroy)
     }
+    /// The same decision expressed through the documented conversions: `EcsStep -> EcsStepDestroy`
+    /// for the two-valued answers and `()` for "continue".
+    pub fn to_gecs_via_conversions(self, unit_for_continue: bool) -> EcsStepDestroy {
+        match self {
+            Step::Continue if unit_for_continue => ().into(),
+            Step::Continue => EcsStep::Continue.into(),
+            Step::Break => EcsStep::Break.into(),
+            Step::ContinueDestroy => EcsStepDestroy::ContinueDestroy,
+            Step::BreakDestroy => EcsStepDestroy::BreakDestroy,
+        }
+    }
+
     pub fn to_gecs(self) -> EcsStepDestroy {
         match self {
             Step::Continue => EcsStepDestroy::Continue,
@@ -348,10 +360,19 @@ pub enum BKind {
     FindBorrowOneOfM,
     IterBorrowOneOfS,
     IterBorrowOneOfM,
+    /// the component parameter is literally named `_` (it still declares an access)
+    FindBorrowAnonS,
+    FindBorrowAnonM,
+    IterBorrowAnonM,
+    /// `ecs_iter_borrow!` WITHOUT an `Entity<A>` parameter: the query matches every archetype
+    /// holding the component; the nested accesses run while an entity of this archetype is visited
+    /// (only used as the outermost access of a nesting)
+    IterBorrowCrossS,
+    IterBorrowCrossM,
 }
 
 impl BKind {
-    pub const ALL: [BKind; 13] = [
+    pub const ALL: [BKind; 18] = [
         BKind::FindBorrowS,
         BKind::FindBorrowM,
         BKind::IterBorrowS,
@@ -365,15 +386,27 @@ impl BKind {
         BKind::FindBorrowOneOfM,
         BKind::IterBorrowOneOfS,
         BKind::IterBorrowOneOfM,
+        BKind::FindBorrowAnonS,
+        BKind::FindBorrowAnonM,
+        BKind::IterBorrowAnonM,
+        BKind::IterBorrowCrossS,
+        BKind::IterBorrowCrossM,
     ];
     pub fn mutable(&self) -> bool {
-        matches!(self, BKind::FindBorrowM | BKind::IterBorrowM | BKind::CompM | BKind::SliceM | BKind::FindBorrowOneOfM | BKind::IterBorrowOneOfM)
+        matches!(self, BKind::FindBorrowM | BKind::IterBorrowM | BKind::CompM | BKind::SliceM | BKind::FindBorrowOneOfM | BKind::IterBorrowOneOfM | BKind::FindBorrowAnonM | BKind::IterBorrowAnonM | BKind::IterBorrowCrossM)
+    }
+    /// The access observes (and, if mutable, overwrites) the component value.
+    pub fn reads_value(&self) -> bool {
+        !matches!(self, BKind::FindBorrowAnonS | BKind::FindBorrowAnonM | BKind::IterBorrowAnonM)
+    }
+    pub fn is_cross(&self) -> bool {
+        matches!(self, BKind::IterBorrowCrossS | BKind::IterBorrowCrossM)
     }
     pub fn needs_entity(&self) -> bool {
-        matches!(self, BKind::FindBorrowS | BKind::FindBorrowM | BKind::CompS | BKind::CompM | BKind::FindBorrowOneOfS | BKind::FindBorrowOneOfM)
+        matches!(self, BKind::FindBorrowS | BKind::FindBorrowM | BKind::CompS | BKind::CompM | BKind::FindBorrowOneOfS | BKind::FindBorrowOneOfM | BKind::FindBorrowAnonS | BKind::FindBorrowAnonM)
     }
     pub fn is_iter(&self) -> bool {
-        matches!(self, BKind::IterBorrowS | BKind::IterBorrowM | BKind::IterBorrowOneOfS | BKind::IterBorrowOneOfM)
+        matches!(self, BKind::IterBorrowS | BKind::IterBorrowM | BKind::IterBorrowOneOfS | BKind::IterBorrowOneOfM | BKind::IterBorrowAnonM | BKind::IterBorrowCrossS | BKind::IterBorrowCrossM)
     }
     pub fn name(&self) -> &'static str {
         match self {
@@ -390,6 +423,11 @@ impl BKind {
             BKind::FindBorrowOneOfM => "find_borrow(&mut OneOf)",
             BKind::IterBorrowOneOfS => "iter_borrow(&OneOf)",
             BKind::IterBorrowOneOfM => "iter_borrow(&mut OneOf)",
+            BKind::FindBorrowAnonS => "find_borrow(_: &)",
+            BKind::FindBorrowAnonM => "find_borrow(_: &mut)",
+            BKind::IterBorrowAnonM => "iter_borrow(_: &mut)",
+            BKind::IterBorrowCrossS => "iter_borrow(& , all archetypes)",
+            BKind::IterBorrowCrossM => "iter_borrow(&mut , all archetypes)",
         }
     }
 }
